@@ -27,6 +27,12 @@ CHECKS = {
          "seeded search over multi-season bundles with events that make earlier seasons end away from the initial condition; every season k >= 1 compared bitwise with a fresh run", "DESIGN.md section 6 C08", "fresh objects built from the same spec are the oracle; inputs that legitimately differ are excluded and named"),
  "C09": ("exploration", "deterministic simulation: seeded scheduler of run_model call partitions (random, boundary-aligned, exhaustive compositions of short windows and of forked suffixes), neighbour noise, bitwise comparison with the uninterrupted run",
          "seeded search over call schedules plus exhaustively enumerated sub-spaces (all compositions of windows <= 9 days and of the last <= 7 steps before each harvest/termination from a checkpoint fork)", "DESIGN.md section 6 C09", "deepcopy fork of a model is checked for fidelity before it is used"),
+ "C11": ("fault_enumeration", "deterministic simulation with fault injection: histories of uses of the same durable objects with abandon, in-step crash (SimCrash at a chosen process call) and restart; completed runs compared bitwise with the first run and with fresh objects",
+         "for short windows every abandon point and every (step, process-call) crash point is enumerated; long windows are sampled with bias to day 0, planting, harvest and the last day; plus seeded exploration over configurations and histories", "DESIGN.md section 6 C11", "only the restarted run is compared after an injected fault; fresh objects built from the same spec are the second oracle"),
+ "C12": ("exploration", "deterministic simulation: value snapshots of every configured object around every day and every clock update (seams on solution_single_time_step and update_time), allowed-change list as the invariant",
+         "seeded search; snapshots compared before/after each daily solution and each clock update, inside multi-day calls too; attempted writes on read-only arrays are classified as violations", "DESIGN.md section 6 C12", "the internal fallow filler crop is not a configured parameter and is excluded"),
+ "C15": ("exploration", "deterministic simulation: twin nodes, seeded sequences of benign transport transformations on the weather input channel, bitwise comparison",
+         "seeded search over transformation sequences (all 120 column orders within a thorough run); no schedule dimension of its own", "DESIGN.md section 6 C15", "the canonical frame run is the oracle"),
 }
 
 NOT_APPLICABLE = {
